@@ -45,11 +45,16 @@ struct alignas(64) ObjA { char d[128]; };     // over-aligned element (a cache l
 static igris::static_object_pool<ObjA, 3> *SA3;
 static igris::static_object_pool<Obj<8>, 4> *S84; static igris::static_object_pool<Obj<24>, 3> *S243; static igris::static_object_pool<Obj<64>, 1> *S641; static igris::static_object_pool<Obj<12>, 5> *S125;
 static std::vector<void *> plive;
+// an element whose constructor uses the pool it is being created in (a node that creates its first child, a handle that retires its
+// predecessor): mode 1 creates another object in the same pool, mode 2 destroys the object `victim`
+struct ObjR; static igris::static_object_pool<ObjR, 4> *SR4; static ObjR *g_nested = nullptr; static ObjR *g_victim = nullptr; static bool g_ctor_ran = false;
+struct ObjR { char d[32]; ObjR(int mode = 0); };
+ObjR::ObjR(int mode) { g_ctor_ran = true; memset(d, 0x5C, sizeof d); if (mode == 1) g_nested = SR4->create(0); else if (mode == 2 && g_victim) { SR4->destroy(g_victim); g_victim = nullptr; } }
 // a second zone engaged later into the same pool_head (kind "ph"): cells pcap0 .. pcap0 + n2 - 1
 static unsigned char *zone2 = nullptr; static int pcap0 = 0, n2cells = 0;
-static void *pbase() { if (pk == "sop") { if (pel == 128) return SA3->storage.data(); if (pel == 8) return S84->storage.data(); if (pel == 24) return S243->storage.data(); if (pel == 64) return S641->storage.data(); return S125->storage.data(); } return zone + 64; }
-static size_t pstride() { if (pk == "sop") { if (pel == 128) return sizeof(SA3->storage[0]); if (pel == 8) return sizeof(S84->storage[0]); if (pel == 24) return sizeof(S243->storage[0]); if (pel == 64) return sizeof(S641->storage[0]); return sizeof(S125->storage[0]); } return pel; }
-static pool_head *phead() { if (pk == "ph") return &PH; if (pk == "sop") { if (pel == 128) return SA3->freelist(); if (pel == 8) return S84->freelist(); if (pel == 24) return S243->freelist(); if (pel == 64) return S641->freelist(); return S125->freelist(); } return nullptr; }
+static void *pbase() { if (pk == "sop") { if (pel == 128) return SA3->storage.data(); if (pel == 8) return S84->storage.data(); if (pel == 24) return S243->storage.data(); if (pel == 64) return S641->storage.data(); if (pel == 32) return SR4->storage.data(); return S125->storage.data(); } return zone + 64; }
+static size_t pstride() { if (pk == "sop") { if (pel == 128) return sizeof(SA3->storage[0]); if (pel == 8) return sizeof(S84->storage[0]); if (pel == 24) return sizeof(S243->storage[0]); if (pel == 64) return sizeof(S641->storage[0]); if (pel == 32) return sizeof(SR4->storage[0]); return sizeof(S125->storage[0]); } return pel; }
+static pool_head *phead() { if (pk == "ph") return &PH; if (pk == "sop") { if (pel == 128) return SA3->freelist(); if (pel == 8) return S84->freelist(); if (pel == 24) return S243->freelist(); if (pel == 64) return S641->freelist(); if (pel == 32) return SR4->freelist(); return S125->freelist(); } return nullptr; }
 static void *cell_addr(int i) { if (zone2 && i >= pcap0) return zone2 + 64 + (size_t)(i - pcap0) * pel; return (char *)pbase() + (size_t)i * pstride(); }
 static long cell_of(void *p) { if (!p) return -1;
     if (zone2) { long d2 = (char *)p - (char *)(zone2 + 64); if (d2 >= 0 && d2 < (long)n2cells * pel) return d2 % pel ? -2 : pcap0 + d2 / pel; }
@@ -74,7 +79,7 @@ int main(int argc, char **argv) {
                 if (pk != "sop") { free(zone); zone = (unsigned char *)aligned_alloc(64, ((128 + pcap * pel + 64 + 63) / 64) * 64); memset(zone, 0xA5, 128 + pcap * pel); }
                 if (pk == "ph") { pool_init(&PH); pool_engage(&PH, zone + 64, pcap * pel, pel); }
                 else if (pk == "ip") IP.reset(new igris::pool(zone + 64, pcap * pel, pel));
-                else { delete SA3; SA3 = new igris::static_object_pool<ObjA, 3>(); delete S84; delete S243; delete S641; delete S125; S84 = new igris::static_object_pool<Obj<8>, 4>(); S243 = new igris::static_object_pool<Obj<24>, 3>(); S641 = new igris::static_object_pool<Obj<64>, 1>(); S125 = new igris::static_object_pool<Obj<12>, 5>(); }
+                else { delete SA3; SA3 = new igris::static_object_pool<ObjA, 3>(); delete S84; delete S243; delete S641; delete S125; S84 = new igris::static_object_pool<Obj<8>, 4>(); S243 = new igris::static_object_pool<Obj<24>, 3>(); S641 = new igris::static_object_pool<Obj<64>, 1>(); S125 = new igris::static_object_pool<Obj<12>, 5>(); delete SR4; SR4 = new igris::static_object_pool<ObjR, 4>(); }
                 Ev e("Reset"); e.str("kind", pk.c_str()).i("cap", pcap).i("el", pel); pool_obs(e); e.end(); }
             return; }
         if (op == "Malloc") { int id = num(t[1]); size_t n = num(t[2]); unsigned char *p = (unsigned char *)igv_malloc(n); if (p) { fill(id, p, n); live[id] = Blk{p, n}; }
@@ -90,13 +95,22 @@ int main(int argc, char **argv) {
         else if (op == "PAlloc") { void *p = nullptr;
             if (pk == "ph") p = pool_alloc(&PH); else if (pk == "ip") p = IP->get();
             else if (pel == 128) p = SA3->create();
-            else if (pel == 8) p = S84->create(); else if (pel == 24) p = S243->create(); else if (pel == 64) p = S641->create(); else p = S125->create();
+            else if (pel == 8) p = S84->create(); else if (pel == 24) p = S243->create(); else if (pel == 64) p = S641->create(); else if (pel == 32) p = SR4->create(0); else p = S125->create();
             if (p) { memset(p, 0x5C, pk == "sop" ? pel : pel); plive.push_back(p); }
             Ev e("PAlloc"); e.i("cell", cell_of(p)).i("al", p ? (long)((uintptr_t)p % (pk == "sop" ? (pel == 128 ? 64 : 8) : (pel % 8 == 0 ? 8 : 4))) : 0); pool_obs(e); e.end(); }
+        else if (op == "PAllocN") {   // create() of an element whose constructor creates another element in the same pool: outer cell, then inner cell
+            if (pk != "sop" || pel != 32) { Ev e("PSkip"); e.end(); return; }
+            g_nested = nullptr; g_ctor_ran = false; ObjR *p = SR4->create(1); ObjR *q = g_nested; if (p) plive.push_back(p); if (q) plive.push_back(q);
+            std::vector<long long> cs{cell_of(p), cell_of(q)}; Ev e("PAlloc2"); e.ints("cells", cs).i("ctor_ran", g_ctor_ran ? 1 : 0); pool_obs(e); e.end(); }
+        else if (op == "PAllocF") {   // create() of an element whose constructor destroys the live element number k of the same pool
+            size_t k = num(t[1]); if (pk != "sop" || pel != 32 || k >= plive.size()) { Ev e("PSkip"); e.end(); return; }
+            ObjR *v = (ObjR *)plive[k]; g_victim = v; g_ctor_ran = false; ObjR *p = SR4->create(2); bool freed = g_victim == nullptr; g_victim = nullptr;
+            if (freed) plive.erase(plive.begin() + k); if (p) plive.push_back(p);
+            Ev e("PAllocF"); e.i("cell", cell_of(p)).i("freed", freed ? cell_of(v) : -1).i("ctor_ran", g_ctor_ran ? 1 : 0); pool_obs(e); e.end(); }
         else if (op == "PFree") { size_t k = num(t[1]); if (k >= plive.size()) { Ev e("PSkip"); e.end(); return; } void *p = plive[k]; plive.erase(plive.begin() + k); long c = cell_of(p);
             if (pk == "ph") pool_free(&PH, p); else if (pk == "ip") IP->put(p);
             else if (pel == 128) SA3->destroy((ObjA *)p);
-            else if (pel == 8) S84->destroy((Obj<8> *)p); else if (pel == 24) S243->destroy((Obj<24> *)p); else if (pel == 64) S641->destroy((Obj<64> *)p); else S125->destroy((Obj<12> *)p);
+            else if (pel == 8) S84->destroy((Obj<8> *)p); else if (pel == 24) S243->destroy((Obj<24> *)p); else if (pel == 64) S641->destroy((Obj<64> *)p); else if (pel == 32) SR4->destroy((ObjR *)p); else S125->destroy((Obj<12> *)p);
             Ev e("PFree"); e.i("cell", c); pool_obs(e); e.end(); }
         else { fprintf(stderr, "bad op %s\n", op.c_str()); exit(3); }
     });
